@@ -25,8 +25,12 @@ package tokenizers
 //@   assigns sc(scanner).position, sc(scanner).line, sc(scanner).column
 //@   nopanic
 //@   ensures[C13,C14] result.typ == (sc(scanner).content[old(cur(scanner))] == 34 ? tokenizers.Word : tokenizers.Quoted)
+// "quoted strings with doubled-quote escapes": the literal runs to just after the first quote of its own kind that is not
+// doubled, or to the end of input (qEnd, the recursive function of the CSV quote state)
+//@   ensures[C13,C14] cur(scanner) == qEnd(seq(sc(scanner).content), old(cur(scanner)) + 1, sc(scanner).content[old(cur(scanner))])
 //@   loop 0
 //@     invariant isScanner(scanner) && sc(scanner).content == old(sc(scanner).content)
+//@     invariant qEnd(seq(sc(scanner).content), old(cur(scanner)) + 1, firstSymbol) == qEnd(seq(sc(scanner).content), sc(scanner).position, firstSymbol)
 //@     invariant old(sc(scanner).position) + 1 <= sc(scanner).position && sc(scanner).position <= len(sc(scanner).content)
 //@     invariant nextSymbol == chr(seq(sc(scanner).content), sc(scanner).position)
 //@     invariant old(sc(scanner).position) + 2 <= sc(scanner).position + (nextSymbol == -1 ? 1 : 0)
